@@ -3036,13 +3036,94 @@ func c05r17(c *Ctx, r *Report) {
 	r.floor("calls of Chars.Get in buildResult", gets, 4)
 }
 
+// accentTable returns the constant entries of the map stored into the package-level variable g.
+func accentTable(l *Loaded, g *ssa.Global) map[rune]rune {
+	out := map[rune]rune{}
+	for _, f := range l.AllFuncs() {
+		eachInstr(f, func(in ssa.Instruction) {
+			mu, ok := in.(*ssa.MapUpdate)
+			if !ok {
+				return
+			}
+			isTab := false
+			if mm, ok := mu.Map.(*ssa.MakeMap); ok && mm.Referrers() != nil {
+				for _, ref := range *mm.Referrers() {
+					if st, ok := ref.(*ssa.Store); ok && st.Addr == ssa.Value(g) {
+						isTab = true
+					}
+				}
+			}
+			if !isTab {
+				return
+			}
+			k, ok1 := constIntVal(mu.Key)
+			v, ok2 := constIntVal(mu.Value)
+			if ok1 && ok2 {
+				out[rune(k)] = rune(v)
+			}
+		})
+	}
+	return out
+}
+
+// c01r12: all matchers fold case first and accents second. For a case-INSENSITIVE term the text is
+// lower-cased before the table is consulted, so the small letters suffice; for a case-sensitive term (smart case
+// with a capital, +i) the text is looked up as it is, so a capital has to be in the table whenever its small
+// letter is — otherwise `Sk` finds `Skoda` and `škoda`'s sibling `Škoda` is dropped although `sk` finds it (D68:
+// 174 capitals of Latin Extended-A/B were missing: Š Č Ž Ł Ś Ğ Ş Ő Ű Ā Ē Ī Ō Ū ...).
+func c01r12(c *Ctx, r *Report) {
+	l := c.L
+	r.rule("C01-R12", "E (the accent table is closed under case)", "P1",
+		"for every entry k -> v of algo.normalized with v in a..z whose upper-case form U = unicode.ToUpper(k) is a different letter with unicode.ToLower(U) == k and U inside the range the readers admit (0x00C0..0x2184), the table also has U -> unicode.ToUpper(v)",
+		"a case-sensitive term drops lines whose capital letter carries an accent although the same term in lower case finds them: a matching line is not shown")
+	g := l.Global("algo", "normalized")
+	if g == nil {
+		r.unest("anchors", token.NoPos, nil, "anchor algo.normalized", "cannot resolve")
+		return
+	}
+	tab := accentTable(l, g)
+	var ks []int
+	for k := range tab {
+		ks = append(ks, int(k))
+	}
+	sort.Ints(ks)
+	pairs, missing := 0, []string{}
+	for _, ki := range ks {
+		k := rune(ki)
+		v := tab[k]
+		u := unicode.ToUpper(k)
+		if u == k || u < 0x00C0 || u > 0x2184 || v < 'a' || v > 'z' || unicode.ToLower(u) != k {
+			continue
+		}
+		pairs++
+		if got, ok := tab[u]; !ok {
+			missing = append(missing, fmt.Sprintf("%c (U+%04X, capital of %c)", u, u, k))
+		} else if got != unicode.ToUpper(v) {
+			missing = append(missing, fmt.Sprintf("%c maps to %c, not to %c", u, got, unicode.ToUpper(v)))
+		}
+	}
+	if len(missing) > 0 {
+		show := missing
+		if len(show) > 12 {
+			show = show[:12]
+		}
+		r.bad("algo.normalized:capitals of the table's small letters", g.Pos(), nil, "closed under case", fmt.Sprintf("%d capitals are not normalised although their small letters are: %s ...", len(missing), strings.Join(show, ", ")))
+	} else {
+		r.ok("algo.normalized:capitals of the table's small letters", g.Pos(), nil, fmt.Sprintf("%d entries, %d small letters with a capital inside the admitted range, every capital is an entry with the capital base letter", len(tab), pairs))
+	}
+	r.floor("entries of the accent table", len(tab), 400)
+	r.floor("small letters of the table that have a capital", pairs, 150)
+}
+
 // round8 runs the round-8 rules of a property (own and shared) after the property's older rules.
 func round8(c *Ctx, r *Report, prop string) {
 	switch prop {
 	case "C01":
+		c01r12(c, r)
 		c01r10(c, r)
 		c01r11(c, r)
 	case "C02":
+		c01r12(c, r) // a witness under the active accent folding exists for the capital as for the small letter
 		c02r14(c, r)
 		c02r15(c, r)
 		c05r14(c, r) // matching never crashes: one match at a time per scratch slab
